@@ -711,7 +711,10 @@ class SInt(object):
     def __ne__(self, o):
         return self._cmp(o, '!=')
 
-    __hash__ = None
+    def __hash__(self):
+        # hashing (dict / set lookup by a symbolic int) enumerates the feasible values, one path
+        # each; the equality test that follows the hash is then decided by the path condition
+        return hash(CTX.concretize(self))
 
     def __bool__(self):
         r = self._cmp(0, '!=')
